@@ -112,6 +112,7 @@ Init ==
 (*   no-restore         C10  finishing a local span leaves the parent cursor on it                 *)
 (*   ctx-last           C11  SpanContext::from_span reads the last token item, not the first       *)
 (*   root-ignores-ready C16  Span::root does not ask whether a reporter is installed               *)
+(*   force-blocks       C07  a forced command waits for room in a full queue instead of parking    *)
 (*   span-before-inner  C13  an adapter dropped while pending finishes its span before its inner   *)
 (*                           future (and the span that future holds) is torn down                   *)
 (*   push-once          C17  a captured set can be pushed to one parent only; later pushes are lost *)
@@ -586,6 +587,7 @@ Exit(t) ==
 
 Push(t) ==
   /\ cur[t] # <<>> /\ tst[t] = "live"
+  /\ ~(M_("force-blocks") /\ Head(cur[t]).mode = "force" /\ Len(ring[t]) >= K)
   /\ Advance(t, cur[t], a, inop[t])
   /\ hist' = Append(hist, [ev |-> "push", t |-> t])
   /\ UNCHANGED <<reg, stack, hs, spans, lsets, futs, pushed, cph, ci, batch, cown, active, nid, nops, natt, ncyc, nfl, pc, quiet>>
@@ -908,6 +910,13 @@ Next ==
   \/ QuietCycle
 
 Spec == Init /\ [][Next]_vars
+
+\* C07 at the level of the design: no call waits for anybody (a full queue parks or drops, flush()
+\* only waits for a cycle that can always run), so the only states without a successor are the
+\* quiescent ones.  Every action consumes a bounded budget, so there are no infinite behaviours and
+\* this is all there is to "never block or deadlock" in the model; hangs of the code are found by the
+\* harness's watchdog.
+NoStuck == (~ENABLED Next) => Done
 
 ----------------------------------------------------------------------------
 (* what TLC checks *)
